@@ -1,14 +1,16 @@
 #!/bin/bash
-# Confirms every seeded change in a scratch worktree of the pinned commit: (1) with the patch the whole test suite passes,
-# (2) the demonstration fails with the patch, (3) passes without it.  Results: build/validate_seeded.log, one block per change.
+# Confirms seeded changes in a scratch worktree of the commit they were written against (meta.json "base", default: the pinned
+# commit): (1) with the patch the whole test suite passes, (2) the demonstration fails with the patch, (3) passes without it.
+# Results: build/validate_seeded.log, one block per change.  usage: validate_seeded.sh [glob]   (default: every change)
 PIN=e7e4d3c
 W=/tmp/kv_validate
 export CARGO_TARGET_DIR=/tmp/kv_validate_target CARGO_NET_OFFLINE=true
 cd /repo && git worktree remove --force $W 2>/dev/null; git worktree add --detach $W $PIN >/dev/null 2>&1 || exit 2
 LOG=/verif/build/validate_seeded.log; : > $LOG
-for d in /verif/seeded/C*-m*; do
+for d in /verif/seeded/${1:-C*-m*}; do
   n=$(basename $d)
-  cd $W && git checkout -q -- . && git clean -fdq
+  base=$(python3 -c "import json,sys; print(json.load(open('$d/meta.json')).get('base','$PIN'))" 2>/dev/null || echo $PIN)
+  cd $W && git checkout -q -- . && git clean -fdq && git checkout -q --detach $base
   cmd=$(grep -h 'cargo test' $d/RUN.txt | grep -v '^#' | tail -1 | sed 's/^.*\(CARGO_NET_OFFLINE=true cargo test\)/\1/' | sed 's/^.*&& *//')
   [ -z "$cmd" ] && cmd=$(grep -h 'cargo test' $d/RUN.txt | tail -1 | sed 's/^# *//')
   echo "== $n" >> $LOG; echo "demo command: $cmd" >> $LOG
@@ -21,7 +23,7 @@ for d in /verif/seeded/C*-m*; do
   (eval "$cmd") > /tmp/kv_demo_without.txt 2>&1; rc_without=$?
   echo "demo with patch: exit $rc_with ($(grep -E '^test result:' /tmp/kv_demo_with.txt | tr '\n' ' ' | cut -c1-160))" >> $LOG
   echo "demo without patch: exit $rc_without ($(grep -E '^test result:' /tmp/kv_demo_without.txt | tr '\n' ' ' | cut -c1-160))" >> $LOG
-  ok=no; if [ "$rc_with" != "0" ] && [ "$rc_without" = "0" ] && echo "$suite" | grep -q "^280 passed 0 failed"; then ok=yes; fi
+  ok=no; if [ "$rc_with" != "0" ] && [ "$rc_without" = "0" ] && echo "$suite" | grep -Eq "^28[0-9] passed 0 failed"; then ok=yes; fi
   echo "RESULT $n confirmed=$ok" >> $LOG
 done
 cd /repo && git worktree remove --force $W; rm -rf /tmp/kv_validate_target /tmp/kv_demo_with.txt /tmp/kv_demo_without.txt
